@@ -150,16 +150,15 @@ def check_oracle_hypotheses(ctx, cases):
             ctx.mismatch('group-split-oracle-hypotheses', case, 'batch_oracle_okb = false', 'splits recorded from re.match')
     ctx.extra['oracle_hypotheses_checked'] = len(todo)
     ctx.extra['oracle_hypotheses_failed'] = bad
-    # the text theorem (C03_batch_text_covers) is stated for runs without extra letters whose patterns are renderable
-    plain = [(case, p) for case, p in todo if not p[1]]
-    outs = ctx.model.call_many(31, [[p[0], p[2], p[3], p[4]] for _, p in plain])
+    # the text theorem (C03_batch_text_covers): its decidable hypothesis, evaluated on every run
+    outs = ctx.model.call_many(31, [[p[0], p[1], p[2], p[3], p[4]] for _, p in todo])
     nr = 0
-    for (case, _), o in zip(plain, outs):
+    for (case, p), o in zip(todo, outs):
         if o != 1:
             nr += 1
-            ctx.mismatch('text-theorem-hypotheses', case, 'batch_renderable = false', 'a run without extra letters')
-    ctx.extra['text_theorem_runs_in_scope(no extra letters)'] = len(plain)
-    ctx.extra['text_theorem_runs_outside_scope(extra letters)'] = len(todo) - len(plain)
+            ctx.mismatch('text-theorem-hypotheses', case, 'batch_renderable = false', 'extras %r' % (p[1],))
+    ctx.extra['text_theorem_runs_checked'] = len(todo)
+    ctx.extra['text_theorem_runs_with_extra_letters'] = sum(1 for _, p in todo if p[1])
     ctx.extra['text_theorem_hypotheses_failed'] = nr
 
 
@@ -184,9 +183,11 @@ def check_regex_model(ctx, cases, limit=4000):
     pats = sorted(by_pat)[:limit]
     outs = ctx.model.call_many(30, [[p, list(by_pat[p])] for p in pats])
     n_in = n_out = n_pairs = bad = 0
+    outside = []
     for p, o in zip(pats, outs):
         if o == [2] or o == '!stack' or not isinstance(o, list):
             n_out += 1
+            outside.append(p)
             continue
         n_in += 1
         for s, got in zip(by_pat[p], o):
@@ -196,7 +197,7 @@ def check_regex_model(ctx, cases, limit=4000):
                 if bad <= 5:
                     ctx.mismatch('regex-text-model', {'expression': p, 'string': s}, got, by_pat[p][s])
     ctx.extra['regex_text_model'] = {'expressions_in_fragment': n_in, 'outside_fragment(extra letters / alternation)': n_out,
-                                     'pairs_compared': n_pairs, 'disagreements': bad}
+                                     'pairs_compared': n_pairs, 'disagreements': bad, 'outside_examples': outside[:8]}
     ctx.cov['evaluations'] += n_pairs
 
 
